@@ -6,6 +6,10 @@
 // substitution of every valid encoding.  Oracle: generated genproto2 codec vs reflection codec (bytes, size, accept/
 // reject, decoded value by amino.DeepEqual semantics, no panic), binary and JSON round-trips.
 //
+// Violation keys: <class>|<normalised cause>|min=<type>:<hex input>, one per (class, cause); min = smallest witness
+// (shortest input, then type name, then input).  The thorough tier runs the complete quick enumeration first ("core"
+// phase) and takes min from it, so both tiers report the same key for the same defect (see mutants/NOTES.md).
+//
 // All codec calls run in worker subprocesses (same binary, env C20_WORKER=1) under an address-space cap; the parent
 // only schedules tasks and aggregates results, so a decoder that exhausts memory or the stack cannot kill the check.
 package main
@@ -277,7 +281,7 @@ func main() {
 		return
 	}
 	r = vk.New("exploration")
-	r.SetBudget(150*time.Second, 25*time.Minute)
+	r.SetBudget(240*time.Second, 25*time.Minute) // caps, not targets: quick takes ~45 s (thorough ~3-5 min) on an idle 16-core machine
 	regs := collectTypes()
 	if len(regs) < 50 {
 		r.HarnessError("type universe too small: %d", len(regs))
